@@ -1,5 +1,6 @@
 SPECIFICATION Spec
 CONSTANTS
   Family = "design"
+  Repaired = TRUE
 INVARIANT DesignHolds
 CHECK_DEADLOCK FALSE
